@@ -327,4 +327,10 @@ theorem shortcut_parsed_of_flag : type_of% @Sipsp.shortcut_parsed_of_flag := @Si
     header value, the header count went up by one, and every value stored from this line lies inside `val` -/
 theorem contact_values_inside_header_line : type_of% @Sipsp.svc_contact_header := @Sipsp.svc_contact_header
 
+/-! ### where the headers stopped (proved in `Sipsp.Proofs.Layout`) -/
+
+/-- layout of a successful message parse, relative to the header block the call (or an earlier call) finished:
+    `∃ h`, the end of the header block, with `start ≤ … ≤ h ≤ o'` -/
+theorem headers_end_is_body_start : type_of% @Sipsp.msgHeaders_layout := @Sipsp.msgHeaders_layout
+
 end Sipsp.C05
